@@ -6,8 +6,11 @@ b. FileState::is_clean compares file_type, mtime and size of both operands
 c. TreeState.own_mtime is written only by update_own_mtime (from symlink_metadata of the state file, or 0) and the
    constructor; load calls it; save calls it before persisting (never newer than the file it describes)
 d. an untracked path (no previous state) is never clean
+e. file-system-monitor path (watchman feature is part of the default build): the walk may be narrowed to the files the
+   monitor reported only when the query succeeded and was not a fresh instance; the clock stored in the tree state is the
+   one returned by the very query that narrowed this snapshot's walk; the clock has a frozen writer set
 """
-from jjv.lib import (PathExplorer, bodies_with, body_accesses, check_order, name_matches, ok_exit_nodes, op_const,
+from jjv.lib import (PathExplorer, bodies_with, body_accesses, check_order, name_matches, ok_exit_nodes, op_const, op_place,
                      place_has_field, show, strip, term_fields)
 
 LW = "jj_lib::local_working_copy::"
@@ -29,10 +32,11 @@ def run(ctx):
         "is never clean.")
     ctx.clauses = ["skip only when clean AND strictly older than the state file", "cleanliness compares type, mtime, size",
                    "own_mtime provenance and update points", "untracked is never clean"]
-    ctx.not_decided = ["file-system timestamp granularity itself", "fsmonitor (watchman) path"]
+    ctx.not_decided = ["file-system timestamp granularity itself", "that watchman itself reports every change since the clock"]
     rule_a(ctx)
     rule_b(ctx)
     rule_c(ctx)
+    rule_e(ctx)
 
 
 def rule_a(ctx):
@@ -181,3 +185,136 @@ def rule_c(ctx):
     loads = bodies_with(F, TS + "::read", TS + "::update_own_mtime")
     ctx.ob("C26.c/load-updates-own-mtime", TS + "::read", bool(loads), "TreeState::read calls update_own_mtime" if loads
            else "loading the tree state no longer records the state file's mtime")
+
+
+def rule_e(ctx):
+    F = ctx.F
+    from jjv.lib import alts, term_calls, walk
+    WM = "jj_lib::fsmonitor::watchman::Fsmonitor::query_changed_files"
+    MK = TS + "::make_fsmonitor_matcher"
+    QW = TS + "::query_watchman"
+    # e1. fresh instance => no narrowing
+    qb = [b for b in F.family_bodies(WM) if any(True for _ in b.switches())]
+    qb = [b for b in qb if b.calls_to("re:collect_vec$|::collect$")]
+    if ctx.anchor("C26.e", "watchman query_changed_files body", qb, 1):
+        b = qb[0]
+        ctx.fn_seen(b.id)
+        sl = F.slicer(b.id)
+        ok = False
+        for bb, t in b.switches():
+            p = op_place(t["o"])
+            if p is None or b.locals[p[0]] != "bool":
+                continue
+            term = show(sl.place(p, at=bb))
+            if "is_fresh_instance" not in term:
+                continue
+            e_true, e_false = b.edge_node(bb, "else"), b.edge_node(bb, 0)
+            rt = b.reachable_from([e_true], avoid=[e_false])
+            rf = b.reachable_from([e_false], avoid=[e_true])
+            somes = {i for i, blk in enumerate(b.blocks) if not blk.get("c") for st in blk["s"]
+                     if st["r"]["k"] == "agg" and st["r"].get("adt") == "std::option::Option" and st["r"].get("v") == "Some"}
+            nones = {i for i, blk in enumerate(b.blocks) if not blk.get("c") for st in blk["s"]
+                     if st["r"]["k"] == "agg" and st["r"].get("adt") == "std::option::Option" and st["r"].get("v") == "None"}
+            # the list of changed paths (Some(paths)) is built only on the not-fresh edge
+            collects = {c.bb for c in b.calls_to("re:collect_vec$|::collect$")}
+            ok = bool(collects) and collects <= rf and not (collects & b.reachable_from([e_true]))
+        ctx.ob("C26.e/fresh-instance-means-full-scan", b.id, ok,
+               "changed paths are returned only when !is_fresh_instance; a fresh instance yields None (crawl everything)" if ok else
+               "a fresh watchman instance (which knows nothing about earlier changes) can narrow the snapshot walk")
+    # e3. every alternative of `changed_files` in make_fsmonitor_matcher: None, the Test setting, or the Ok payload of query_watchman
+    mb = [b for b in F.family_bodies(MK) if b.calls_to(QW)]
+    if ctx.anchor("C26.e", "make_fsmonitor_matcher body", mb, 1):
+        b = mb[0]
+        ctx.fn_seen(b.id)
+        sl = F.slicer(b.id)
+        qc = [c for c in b.calls_to(QW) if c.decl != "futures::Future::poll"]
+        # the matcher narrows from FilesMatcher::new(paths): paths must derive from the query's Ok result or the Test field
+        fm = b.calls_to("re:matchers::FilesMatcher::new$")
+        okp = bool(fm)
+        why = ""
+        for c in fm:
+            t = sl.call_arg(c, 0)
+            names = {x[1] for x in term_calls(t)}
+            from_query = QW in names
+            from_test = any(w[0] == "variant" and "Test" in str(w) for w in walk(t)) or "changed_files" in show(t)
+            lits = [w for w in walk(t) if w[0] == "call" and name_matches(w[1], "re:Vec::<.*>::new$|vec::from_elem$")]
+            if not (from_query or from_test) or lits:
+                okp = False
+                why = show(t)[:100]
+        ctx.ob("C26.e/narrowing-set-comes-from-the-monitor", b.id, okp,
+               "FilesMatcher::new(paths) with paths from query_watchman()'s Ok result (or the Test setting)" if okp else
+               f"the walk can be narrowed to a path list that the monitor did not report: {why}")
+        # every way `changed_files` can be Some(..): only the monitor's Ok answer or the Test setting -- in particular the
+        # Err arm of the query and the None setting must yield None (full scan)
+        bad, n_alt = [], 0
+        for c in fm:
+            t = sl.call_arg(c, 0)
+            for w in walk(t):
+                if not (w[0] == "variant" and w[2] == "Some"):
+                    continue
+                inner = strip(w[1])
+                if not (isinstance(inner, tuple) and inner[0] == "field" and inner[2] == "(tuple)"):
+                    continue
+                k = int(inner[3])
+                for a in alts(inner[1]):
+                    a = strip(a)
+                    if not (isinstance(a, tuple) and a[0] == "tuple" and len(a[1]) > k):
+                        bad.append("unrecognised: " + show(a)[:60])
+                        continue
+                    n_alt += 1
+                    e = strip(a[1][k])
+                    txt = show(e)
+                    if isinstance(e, tuple) and e[0] == "agg" and "Option::None" in txt[:40]:
+                        continue
+                    names = {x[1] for x in term_calls(e)}
+                    from_query = QW in names and any(v[0] == "variant" and v[2] == "Ok" for v in walk(e))
+                    from_test = any(v[0] == "variant" and v[2] == "Test" for v in walk(e))
+                    if not (from_query or from_test):
+                        bad.append(txt[:80])
+        ctx.ob("C26.e/monitor-failure-means-full-scan", b.id, n_alt >= 3 and not bad,
+               f"changed_files is Some(..) only from the Ok answer of query_watchman or the Test setting ({n_alt} alternatives)"
+               if n_alt >= 3 and not bad else
+               f"changed_files can be Some(..) without a successful monitor answer: {bad[:2]} (the walk is narrowed although "
+               f"nothing is known about what changed)")
+    # e5/e6. writers of TreeState.watchman_clock
+    allowed = {TS + "::snapshot": "clock of this snapshot's query", TS + "::reset_watchman": "take()",
+               TS + "::read": "loaded state", TS + "::empty": "None", TS + "::init": "None"}
+    n = 0
+    for r in F.q("SELECT DISTINCT fn FROM field_access WHERE adt=? AND field='watchman_clock'", (TS,)):
+        b = F.body(r["fn"])
+        ws = [(bb, k, p, ln) for (bb, k, p, ln) in body_accesses(b) if k in ("write", "mut") and place_has_field(p, TS, "watchman_clock")]
+        if not ws:
+            continue
+        n += 1
+        ctx.ob("C26.e/clock-writers", b.root, b.root in allowed, allowed.get(b.root, "") if b.root in allowed else
+               "TreeState.watchman_clock is written by a function outside the tabled set", where=f"{b.file}:{ws[0][3]}")
+        if b.root == TS + "::snapshot":
+            sl = F.slicer(b.id)
+            for i, blk in enumerate(b.blocks):
+                if blk.get("c"):
+                    continue
+                for st in blk["s"]:
+                    if place_has_field(st["l"], TS, "watchman_clock") and len([e for e in st["l"][1:] if isinstance(e, list) and e[0] == "f"]) >= 1:
+                        t = sl._rvalue(st["r"], i)
+                        names = {x[1] for x in term_calls(t)}
+                        ok = MK in names and QW not in names
+                        ctx.ob("C26.e/stored-clock-is-this-snapshots-query", f"{b.id}@{st.get('ln', 0)}", ok,
+                               "watchman_clock := make_fsmonitor_matcher(..).watchman_clock (the query that narrowed this walk)" if ok
+                               else f"the stored clock does not come from the query that restricted this walk: {show(t)[:100]} "
+                               f"(changes between that query and a later one are never rescanned)")
+    ctx.anchor("C26.e", "writers of TreeState.watchman_clock", n, 2)
+    mk_sites = [c for c in F.all_calls_to(MK, crates=("jj_lib",)) if not c.cleanup and c.decl != "futures::Future::poll"]
+    ctx.ob("C26.e/one-monitor-query-per-snapshot", MK, len(mk_sites) == 1 and mk_sites[0].body.root == TS + "::snapshot",
+           "make_fsmonitor_matcher is called once, by snapshot: the clock stored and the file list used come from one query"
+           if len(mk_sites) == 1 else
+           f"{len(mk_sites)} calls of make_fsmonitor_matcher: the stored clock can come from a later query than the file list "
+           f"that narrowed the walk", where=mk_sites[-1].where() if mk_sites else None)
+    callers = {c.body.root for c in F.all_calls_to(QW, crates=("jj_lib",)) if not c.cleanup}
+    ok = callers <= {MK, LW + "LocalWorkingCopy::query_watchman"}
+    ctx.ob("C26.e/single-query-per-snapshot", QW, ok, f"called from {sorted(x.split('::')[-1] for x in callers)}" if ok else
+           f"query_watchman has new callers {sorted(callers)}")
+
+
+def find_ok_nodes_(F, b, c):
+    from jjv.lib import find_ok_nodes
+    return find_ok_nodes(F, b, c)
